@@ -51,6 +51,8 @@ AllFmts == {"deb", "rpm", "apk", "archlinux", "ipk"}
 InvalidFor(class) ==
   CASE class = "none" -> {} [] class = "deb_compression" -> {"deb"} [] class = "rpm_compression" -> {"rpm"}
     [] class = "content_type" -> AllFmts [] class = "deb_signature_type" -> {"deb"} [] class \in {"rpm_epoch", "rpm_epoch_range", "rpm_epoch_negative"} -> {"rpm"}   \* an rpm epoch is an unsigned 32-bit number
+    [] class \in {"rpm_relation_depends", "rpm_relation_provides", "rpm_relation_recommends", "rpm_relation_replaces",
+                 "rpm_relation_suggests", "rpm_relation_conflicts"} -> {"rpm"}    \* rpm knows <, <=, =, >=, > only
     [] class = "platform" -> {"apk", "archlinux"} [] class \in {"arch_name", "arch_name_hyphen", "arch_name_dot", "arch_name_dashes"} -> {"archlinux"}   \* may not start with hyphen or dot [] class = "missing_name" -> AllFmts
     [] class = "wrong_passphrase" -> {"deb", "rpm", "apk"} [] OTHER -> {}
 
@@ -94,6 +96,12 @@ TraceCli ==
                  \cup Cl(e.bytes_equal_library_build, "C15.cli_packages_with_the_packager_asked_for")
                  \* the reference is the library build of the settings in effect for this format (its override block applied)
                  \cup Cl(e.bytes_equal_library_build, "C13.cli_builds_effective_settings_of_packaged_format")
+                 \* the same observation is what other properties say about the delivered file: its digests are those of the
+                 \* package (C03), its bytes do not depend on what was at the target before (C07), its scripts are those of the
+                 \* effective settings (C09)
+                 \cup Cl(e.bytes_equal_library_build, "C03.cli_delivers_the_package_bytes")
+                 \cup Cl(e.bytes_equal_library_build, "C07.cli_output_independent_of_target_history")
+                 \cup Cl(e.bytes_equal_library_build, "C09.cli_embeds_the_scripts_of_the_effective_settings")
                  \* ... and of the literal values: the file the tool read spells a version, a relation and an opted-in content
                  \* source as references to the tool's environment
                  \cup Cl(e.bytes_equal_library_build, "C16.cli_expands_references_from_its_environment")
@@ -107,13 +115,24 @@ TraceCli ==
             {}, IF e.tlc.present /\ ExpectFail(e) # (e.tlc.exit # 0) THEN {"trace_spec_and_Cli_module_disagree"} ELSE {})
   /\ UNCHANGED <<cid, ncases>>
 
+(* independent runs of the tool at the same time (separate processes, one output directory): each is a run of Cli.tla of *)
+(* its own - exit 0, its package complete at its target - and together they leave exactly their five packages               *)
+TraceCliConc ==
+  /\ IsEv("cli_conc")
+  /\ LET e == Trace[l]
+         ok == e.exit = 0 /\ e.bytes_equal_library_build /\ e.files_left = e.expected_files
+     IN Rec(Cl(ok, "C12.concurrent_runs_of_the_tool_equal_sequential")
+            \cup Cl(ok, "C15.cli_writes_to_requested_target")
+            \cup Cl(ok, "C06.cli_output_complete"), {}, {})
+  /\ UNCHANGED <<cid, ncases>>
+
 TraceEof ==
   /\ IsEv("eof")
   /\ PrintT(<<"VIOLSET", ToJson(viol)>>) /\ PrintT(<<"DRIFTSET", ToJson(drift)>>) /\ PrintT(<<"MERRSET", ToJson(merr)>>)
   /\ PrintT(<<"NCASES", ncases>>) /\ TLCSet(1, l)
   /\ UNCHANGED <<cid, viol, drift, merr, ncases>>
 
-TraceNext == TraceCase \/ TraceEnd \/ TraceBaseline \/ TraceFault \/ TraceSrcFault \/ TraceInvalid \/ TraceCli \/ TraceEof
+TraceNext == TraceCase \/ TraceEnd \/ TraceBaseline \/ TraceFault \/ TraceSrcFault \/ TraceInvalid \/ TraceCli \/ TraceCliConc \/ TraceEof
 TraceSpec == TraceInit /\ [][TraceNext]_vars
 HighWater == TLCSet(2, l)
 Accepted == TLCGet(1) = Len(Trace)
